@@ -395,6 +395,7 @@ class StmtMixin:
     def dict_store(self, st, r, k, v):
         kb = box(self.materialize(k, st))
         vb = box(self.materialize(v, st))
+        st.key_term(kb)
         has = z3.Select(st.read("dict.has", r), kb)
         keys = st.read("dict.keys", r)
         st.write("dict.keys", r, z3.If(has, keys, z3.Concat(keys, z3.Unit(kb))))
